@@ -38,6 +38,17 @@ type HIDIConfigRaw struct {
 	} `toml:"HIDI"`
 }
 
+// unmarshalTOML decodes data into v, go-toml panics on some well-formed but ill-typed files
+// (e.g. a date where a number is expected), such panic is converted into an error
+func unmarshalTOML(data []byte, v interface{}) (err error) {
+	defer func() {
+		if r := recover(); r != nil {
+			err = fmt.Errorf("%v", r)
+		}
+	}()
+	return toml.Unmarshal(data, v)
+}
+
 func LoadHIDIConfig(path string) (HIDIConfig, error) {
 	data, err := os.ReadFile(path)
 	if err != nil {
@@ -45,7 +56,7 @@ func LoadHIDIConfig(path string) (HIDIConfig, error) {
 	}
 
 	var rawConfig HIDIConfigRaw
-	err = toml.Unmarshal(data, &rawConfig)
+	err = unmarshalTOML(data, &rawConfig)
 	if err != nil {
 		return HIDIConfig{}, err
 	}
